@@ -261,7 +261,7 @@ fn explore_tree(
         min_frontier: 64,
         record: true,
         garbage: false,
-        menu: None,
+        menu: Some(crate::app::main_menu()),
     };
     let v = V {
         rep,
